@@ -140,7 +140,12 @@ func main() {
 	replay := flag.String("replay", "", "file with input S-expressions, one per line: run only those")
 	corpus := flag.String("corpus", "", "corpus file of inputs that run first")
 	budget := flag.Int("budget", 0, "time budget in seconds for generation (0 = none)")
+	k2 := flag.Bool("k2", false, "child process of the deep-nesting probe (known finding K2)")
 	flag.Parse()
+	if *k2 {
+		k2Child()
+		return
+	}
 	p := props[*prop]
 	if p == nil {
 		fmt.Fprintln(os.Stderr, "unknown property", *prop)
